@@ -719,8 +719,24 @@ theorem nextMessageKey_eq (P : Prim B) (t : SecretTree B) (i : Nat) (kt : KeyTyp
   | error e => rfl
   | ok ah => obtain ⟨a, h⟩ := ah; cases kt <;> rfl
 
-theorem messageKeyGeneration_eq (P : Prim B) (t : SecretTree B) (i : Nat) (kt : KeyType) (g : Nat) :
-    t.messageKeyGeneration P i kt g =
+/-- `SecretTree::message_key_generation` as it was BEFORE the repair (no early refusal): the body
+that `messageKeyGeneration` still runs when it does not refuse.  Kept to state that the repair
+changes the state only, never the answer (`Props/C05`, `repair_*`). -/
+def SecretTree.messageKeyGenerationOld (P : Prim B) (t : SecretTree B) (index : Nat) (kt : KeyType)
+    (g : Nat) : Except Err (MsgKey B) × SecretTree B :=
+  match t.takeLeafRatchet P index with
+  | (.error e, t') => (.error e, t')
+  | (.ok (a, h), t') =>
+    match kt with
+    | .application =>
+      let (res, a') := a.get P g
+      (res, { t' with known := mapInsert t'.known index (.ratchet a' h) })
+    | .handshake =>
+      let (res, h') := h.get P g
+      (res, { t' with known := mapInsert t'.known index (.ratchet a h') })
+
+theorem messageKeyGenerationOld_eq (P : Prim B) (t : SecretTree B) (i : Nat) (kt : KeyType) (g : Nat) :
+    t.messageKeyGenerationOld P i kt g =
       match t.takeLeafRatchet P i with
       | (.error e, t') => (.error e, t')
       | (.ok ah, t') =>
@@ -728,12 +744,46 @@ theorem messageKeyGeneration_eq (P : Prim B) (t : SecretTree B) (i : Nat) (kt : 
           { known := mapInsert t'.known i
               (.ratchet (upd kt ah ((sel kt ah).get P g).2).1 (upd kt ah ((sel kt ah).get P g).2).2),
             leafCount := t'.leafCount }) := by
-  unfold SecretTree.messageKeyGeneration
+  unfold SecretTree.messageKeyGenerationOld
   generalize t.takeLeafRatchet P i = c
   obtain ⟨res, t'⟩ := c
   cases res with
   | error e => rfl
   | ok ah => obtain ⟨a, h⟩ := ah; cases kt <;> rfl
+
+/-- the early refusal of the repaired `message_key_generation`: generation beyond the history
+window and no ratchets stored at the index -/
+def Refused (t : SecretTree B) (i g : Nat) : Prop := 1024 < g ∧ t.hasRatchet i = false
+
+instance (t : SecretTree B) (i g : Nat) : Decidable (Refused t i g) :=
+  inferInstanceAs (Decidable (1024 < g ∧ t.hasRatchet i = false))
+
+/-- the repaired function: refuse early, else the old body -/
+theorem messageKeyGeneration_eq (P : Prim B) (t : SecretTree B) (i : Nat) (kt : KeyType) (g : Nat) :
+    t.messageKeyGeneration P i kt g =
+      if Refused t i g then (.error (.invalidFutureGeneration g), t)
+      else t.messageKeyGenerationOld P i kt g := by
+  unfold SecretTree.messageKeyGeneration SecretTree.messageKeyGenerationOld
+  have hiff : (decide (g > maxRatchetBackHistory) && !t.hasRatchet i) = true ↔ Refused t i g := by
+    simp [Refused, maxRatchetBackHistory]
+  by_cases hc : Refused t i g
+  · rw [if_pos hc, if_pos (hiff.2 hc)]
+  · rw [if_neg hc, if_neg (fun h => hc (hiff.1 h))]
+    generalize t.takeLeafRatchet P i = c
+    obtain ⟨res, t'⟩ := c
+    cases res with
+    | error e => rfl
+    | ok ah => obtain ⟨a, h⟩ := ah; cases kt <;> rfl
+
+theorem messageKeyGeneration_refused (P : Prim B) (t : SecretTree B) (i : Nat) (kt : KeyType) (g : Nat)
+    (h : Refused t i g) :
+    t.messageKeyGeneration P i kt g = (.error (.invalidFutureGeneration g), t) := by
+  rw [messageKeyGeneration_eq, if_pos h]
+
+theorem messageKeyGeneration_not_refused (P : Prim B) (t : SecretTree B) (i : Nat) (kt : KeyType)
+    (g : Nat) (h : ¬ Refused t i g) :
+    t.messageKeyGeneration P i kt g = t.messageKeyGenerationOld P i kt g := by
+  rw [messageKeyGeneration_eq, if_neg h]
 
 theorem sel_RInv (P : Prim B) (k : Nat) (enc : B) (i : Nat) (ah : Ratchet B × Ratchet B) (s : B)
     (hs : specNodeSecret P k enc i = some s) (h : RatchetsOK P k enc i ah) (kt : KeyType) :
@@ -791,6 +841,9 @@ theorem step_KInv (P : Prim B) (k : Nat) (enc : B) (t : SecretTree B) (q : Req)
       rw [next_fst P _ _ hsel]
   | get i kt g =>
     simp only [SecretTree.step, messageKeyGeneration_eq, Req.idx, Req.kt]
+    split
+    · exact ⟨h, fun key hk => by cases hk⟩
+    simp only [messageKeyGenerationOld_eq]
     have ht := takeLeafRatchet_KInv P k enc t i h
     split
     · rename_i e t' heq
@@ -1446,6 +1499,8 @@ theorem sel_upd_ne (kt kt' : KeyType) (ah : Ratchet B × Ratchet B) (r : Ratchet
 /-- what one request at a leaf does, given the ratchets `ah` handed out by `take_leaf_ratchet` -/
 theorem step_eq_of_take (P : Prim B) (t t' : SecretTree B) (q : Req) (ah : Ratchet B × Ratchet B)
     (h : t.takeLeafRatchet P q.idx = (.ok ah, t')) :
+    (∃ i kt g, q = .get i kt g ∧ Refused t i g ∧
+      t.step P q = (.error (.invalidFutureGeneration g), t)) ∨
     ∃ (res : Except Err (MsgKey B)) (r' : Ratchet B),
       t.step P q = (res,
         { known := mapInsert t'.known q.idx (.ratchet (upd q.kt ah r').1 (upd q.kt ah r').2),
@@ -1456,27 +1511,38 @@ theorem step_eq_of_take (P : Prim B) (t t' : SecretTree B) (q : Req) (ah : Ratch
   cases q with
   | next i kt =>
     simp only [Req.idx] at h
-    refine ⟨_, _, ?_, Or.inl ⟨i, kt, rfl, rfl, rfl⟩⟩
+    refine Or.inr ⟨_, _, ?_, Or.inl ⟨i, kt, rfl, rfl, rfl⟩⟩
     simp only [SecretTree.step, nextMessageKey_eq, h, Req.idx, Req.kt]
   | get i kt g =>
     simp only [Req.idx] at h
-    refine ⟨_, _, ?_, Or.inr ⟨i, kt, g, rfl, rfl, rfl⟩⟩
-    simp only [SecretTree.step, messageKeyGeneration_eq, h, Req.idx, Req.kt]
+    by_cases hc : Refused t i g
+    · exact Or.inl ⟨i, kt, g, rfl, hc, messageKeyGeneration_refused P t i kt g hc⟩
+    refine Or.inr ⟨_, _, ?_, Or.inr ⟨i, kt, g, rfl, rfl, rfl⟩⟩
+    simp only [SecretTree.step, messageKeyGeneration_not_refused P t i kt g hc,
+      messageKeyGenerationOld_eq, h, Req.idx, Req.kt]
 
 /-- one request at a leaf of the tree: the shape invariant is kept, the request does not fail
-with a tree error, and no other (leaf, key type) ratchet is touched -/
+with a tree error, the leaf is stored afterwards unless the request was refused early (repaired
+`message_key_generation`: then the tree is unchanged), and no other (leaf, key type) ratchet is
+touched -/
 theorem step_FInv (P : Prim B) (k : Nat) (t : SecretTree B) (q : Req)
     (h : FInv k t) (hq : IsLeafOf k q.idx) :
     FInv k (t.step P q).2 ∧
     (t.step P q).1 ≠ .error .leafNodeNoChildren ∧
     (t.step P q).1 ≠ .error .invalidLeafConsumption ∧
-    hasKey (t.step P q).2.known q.idx ∧
+    (hasKey (t.step P q).2.known q.idx ∨
+      ∃ i kt g, q = .get i kt g ∧ Refused t i g ∧
+        t.step P q = (.error (.invalidFutureGeneration g), t)) ∧
     (∀ i kt, i % 2 = 0 → hasKey t.known i → (i ≠ q.idx ∨ kt ≠ q.kt) →
       hasKey (t.step P q).2.known i ∧ ratchetAt P (t.step P q).2 i kt = ratchetAt P t i kt) := by
   obtain ⟨ah, t', htake, hlc', hodd', hf', hfr', hah⟩ := takeLeafRatchet_front P k t q.idx h hq
-  obtain ⟨res, r', hstep, hres⟩ := step_eq_of_take P t t' q ah htake
+  rcases step_eq_of_take P t t' q ah htake with ⟨i, kt, g, hq', hc, hstep⟩ | ⟨res, r', hstep, hres⟩
+  · -- refused early: the tree is returned as it is
+    rw [hstep]
+    exact ⟨h, (fun hc => by cases hc), (fun hc => by cases hc),
+      Or.inr ⟨i, kt, g, hq', hc, rfl⟩, fun i' kt' _ hk _ => ⟨hk, rfl⟩⟩
   rw [hstep]
-  refine ⟨⟨hlc', ?_, hf' _⟩, ?_, ?_, (hasKey_mapInsert _ _ _ _).2 (Or.inl rfl), ?_⟩
+  refine ⟨⟨hlc', ?_, hf' _⟩, ?_, ?_, Or.inl ((hasKey_mapInsert _ _ _ _).2 (Or.inl rfl)), ?_⟩
   · intro e he hpar
     simp only [mem_mapInsert] at he
     rcases he with he | ⟨he, _⟩
@@ -1641,6 +1707,9 @@ theorem step_KNodup (P : Prim B) (t : SecretTree B) (q : Req) (h : KNodup t) :
     · rename_i ah t' heq; rw [heq] at ht; exact nodup_mapInsert _ _ _ ht
   | get i kt g =>
     simp only [SecretTree.step, messageKeyGeneration_eq]
+    split
+    · exact h
+    simp only [messageKeyGenerationOld_eq]
     have ht := takeLeafRatchet_KNodup P t i h
     split
     · rename_i e t' heq; rw [heq] at ht; exact ht
@@ -1652,6 +1721,277 @@ theorem run_KNodup (P : Prim B) (qs : List Req) (t : SecretTree B) (h : KNodup t
   | nil => exact h
   | cons q qs ih => rw [run_cons]; exact ih _ (step_KNodup P t q h)
 
+
+/-! ### §6b the repaired `message_key_generation`: early refusal vs. the old body -/
+
+section Repair
+
+theorem mapGet_mapRemove_self {V : Type} (m : List (Nat × V)) (k : Nat) :
+    mapGet (mapRemove m k).2 k = none := by
+  rw [mapGet_eq_mapRemove]
+  apply (mapRemove_none_iff _ _).2
+  rw [hasKey_mapRemove]
+  exact fun h => h.2 rfl
+
+/-- re-inserting the value that a key already has changes no lookup -/
+theorem mapGet_reinsert {V : Type} (m : List (Nat × V)) (k : Nat) (v : V)
+    (h : mapGet m k = some v) (x : Nat) :
+    mapGet (mapInsert (mapRemove m k).2 k v) x = mapGet m x := by
+  by_cases hx : x = k
+  · subst hx; rw [mapGet_mapInsert_self, h]
+  · rw [mapGet_mapInsert_ne _ _ _ _ hx, mapGet_mapRemove_ne _ _ _ hx]
+
+/-- no ratchets are stored at `i`: no entry, or a `Secret` entry -/
+def NoRatchet (known : List (Nat × Node B)) (i : Nat) : Prop :=
+  ∀ a h, mapGet known i ≠ some (.ratchet a h)
+
+theorem hasRatchet_eq_false_iff (t : SecretTree B) (i : Nat) :
+    t.hasRatchet i = false ↔ NoRatchet t.known i := by
+  unfold SecretTree.hasRatchet NoRatchet
+  cases mapGet t.known i with
+  | none => simp
+  | some n => cases n <;> simp
+
+theorem hasRatchet_eq_true_iff (t : SecretTree B) (i : Nat) :
+    t.hasRatchet i = true ↔ ∃ a h, mapGet t.known i = some (.ratchet a h) := by
+  unfold SecretTree.hasRatchet
+  cases mapGet t.known i with
+  | none => simp
+  | some n => cases n <;> simp
+
+theorem NoRatchet_mapRemove (known : List (Nat × Node B)) (i j : Nat) (h : NoRatchet known i) :
+    NoRatchet (mapRemove known j).2 i := by
+  intro a hh
+  by_cases hij : i = j
+  · subst hij; rw [mapGet_mapRemove_self]; exact fun hc => by cases hc
+  · rw [mapGet_mapRemove_ne _ _ _ hij]; exact h a hh
+
+theorem NoRatchet_mapInsert_secret (known : List (Nat × Node B)) (i j : Nat) (s : B)
+    (h : NoRatchet known i) : NoRatchet (mapInsert known j (.secret s)) i := by
+  intro a hh
+  by_cases hij : i = j
+  · subst hij; rw [mapGet_mapInsert_self]; exact fun hc => by cases hc
+  · rw [mapGet_mapInsert_ne _ _ _ _ hij]; exact h a hh
+
+/-- `consume_node` only ever stores `Secret` entries -/
+theorem consumeNode_NoRatchet (P : Prim B) (t : SecretTree B) (i j : Nat)
+    (h : NoRatchet t.known i) : NoRatchet (t.consumeNode P j).2.known i := by
+  rw [consumeNode_eq]
+  have hr := NoRatchet_mapRemove t.known i j h
+  split
+  · split
+    · exact NoRatchet_mapInsert_secret _ _ _ _ (NoRatchet_mapInsert_secret _ _ _ _ hr)
+    · exact hr
+  · exact hr
+
+theorem consumePath_NoRatchet (P : Prim B) (path : List Nat) (t : SecretTree B) (i : Nat)
+    (h : NoRatchet t.known i) : NoRatchet (SecretTree.consumePath P path t).2.known i := by
+  induction path generalizing t with
+  | nil => exact h
+  | cons j rest ih =>
+    have h1 := consumeNode_NoRatchet P t i j h
+    simp only [SecretTree.consumePath]
+    split
+    · rename_i t' heq; rw [heq] at h1; exact ih t' h1
+    · rename_i e t' heq; rw [heq] at h1; exact h1
+
+theorem consumeNode_err (P : Prim B) (t : SecretTree B) (j : Nat) (e : Err)
+    (h : (t.consumeNode P j).1 = .error e) : e = .leafNodeNoChildren := by
+  rw [consumeNode_eq] at h
+  split at h
+  · split at h
+    · cases h
+    · cases h; rfl
+  · cases h
+
+theorem consumePath_err (P : Prim B) (path : List Nat) (t : SecretTree B) (e : Err)
+    (h : (SecretTree.consumePath P path t).1 = .error e) : e = .leafNodeNoChildren := by
+  induction path generalizing t with
+  | nil => cases h
+  | cons j rest ih =>
+    simp only [SecretTree.consumePath] at h
+    split at h
+    · rename_i t' heq; exact ih t' h
+    · rename_i e' t' heq
+      cases h
+      exact consumeNode_err P t j _ (by rw [heq])
+
+/-- the only errors of `take_leaf_ratchet` are the two tree errors -/
+theorem takeLeafRatchet_err (P : Prim B) (t t' : SecretTree B) (i : Nat) (e : Err)
+    (h : t.takeLeafRatchet P i = (.error e, t')) :
+    e = .leafNodeNoChildren ∨ e = .invalidLeafConsumption := by
+  rw [takeLeafRatchet_eq] at h
+  split at h
+  · cases h
+  · split at h
+    · rename_i e' t'' heq
+      cases h
+      exact Or.inl (consumePath_err P _ t _ (by rw [heq]))
+    · split at h
+      · cases h
+      · cases h; exact Or.inr rfl
+
+/-- if no ratchets are stored at `i`, the ratchets `take_leaf_ratchet` hands out (if it succeeds)
+are freshly derived from a node secret: both at generation 0 with empty history -/
+theorem takeLeafRatchet_fresh (P : Prim B) (t t' : SecretTree B) (i : Nat)
+    (ah : Ratchet B × Ratchet B) (hn : NoRatchet t.known i)
+    (h : t.takeLeafRatchet P i = (.ok ah, t')) :
+    ∃ s, ah = (Ratchet.new P s .application, Ratchet.new P s .handshake) := by
+  have key : ∀ (known : List (Nat × Node B)) (node : Node B), NoRatchet known i →
+      (mapRemove known i).1 = some node →
+      ∃ s, toRatchets P node = (Ratchet.new P s .application, Ratchet.new P s .handshake) := by
+    intro known node hk hv
+    cases node with
+    | secret s => exact ⟨s, rfl⟩
+    | ratchet a hh => exact absurd hv (hk a hh)
+  rw [takeLeafRatchet_eq] at h
+  split at h
+  · rename_i node hv
+    cases h
+    exact key t.known node hn hv
+  · have hp := consumePath_NoRatchet P ((directCopath i t.leafCount).map (·.1)).reverse t i hn
+    split at h
+    · cases h
+    · rename_i t'' heq
+      rw [heq] at hp
+      split at h
+      · rename_i node hv
+        cases h
+        exact key t''.known node hp hv
+      · cases h
+
+theorem sel_new (P : Prim B) (s : B) (kt : KeyType) :
+    sel kt (Ratchet.new P s .application, Ratchet.new P s .handshake) = Ratchet.new P s kt := by
+  cases kt <;> rfl
+
+/-- a fresh ratchet (generation 0; `0 + 1024 < 2^32`) refuses every generation beyond 1024 -/
+theorem get_fresh_future (P : Prim B) (s : B) (kt : KeyType) (g : Nat) (hg : 1024 < g) :
+    (Ratchet.new P s kt).get P g = (.error (.invalidFutureGeneration g), Ratchet.new P s kt) := by
+  apply get_future
+  · show ¬ g < 0
+    omega
+  · show ¬ 0 + maxRatchetBackHistory ≥ 2 ^ 32
+    simp only [maxRatchetBackHistory]; omega
+  · show g > 0 + maxRatchetBackHistory
+    simp only [maxRatchetBackHistory]; omega
+
+/-- what the OLD body answers to a request that the repaired function refuses early: the same
+`InvalidFutureGeneration`, unless `take_leaf_ratchet` itself fails (index not reachable) -/
+theorem old_of_refused (P : Prim B) (t : SecretTree B) (i : Nat) (kt : KeyType) (g : Nat)
+    (h : Refused t i g) :
+    (t.messageKeyGenerationOld P i kt g).1 = .error (.invalidFutureGeneration g) ∨
+    (t.messageKeyGenerationOld P i kt g).1 = .error .leafNodeNoChildren ∨
+    (t.messageKeyGenerationOld P i kt g).1 = .error .invalidLeafConsumption := by
+  rw [messageKeyGenerationOld_eq]
+  cases hc : t.takeLeafRatchet P i with
+  | mk res t' =>
+    cases res with
+    | error e =>
+      rcases takeLeafRatchet_err P t t' i e hc with he | he
+      · subst he; exact Or.inr (Or.inl rfl)
+      · subst he; exact Or.inr (Or.inr rfl)
+    | ok ah =>
+      obtain ⟨s, hs⟩ := takeLeafRatchet_fresh P t t' i ah ((hasRatchet_eq_false_iff t i).1 h.2) hc
+      subst hs
+      simp only [sel_new, get_fresh_future P s kt g h.1]
+      exact Or.inl trivial
+
+/-- The repair never changes the answer, except for the KIND of error at an index where
+`take_leaf_ratchet` fails: the results agree, or the request is refused early with
+`InvalidFutureGeneration` where the old body failed with a tree error. -/
+theorem repair_verdict (P : Prim B) (t : SecretTree B) (i : Nat) (kt : KeyType) (g : Nat) :
+    (t.messageKeyGeneration P i kt g).1 = (t.messageKeyGenerationOld P i kt g).1 ∨
+    (Refused t i g ∧
+      (t.messageKeyGeneration P i kt g).1 = .error (.invalidFutureGeneration g) ∧
+      ((t.messageKeyGenerationOld P i kt g).1 = .error .leafNodeNoChildren ∨
+       (t.messageKeyGenerationOld P i kt g).1 = .error .invalidLeafConsumption)) := by
+  by_cases hc : Refused t i g
+  · rw [messageKeyGeneration_refused P t i kt g hc]
+    rcases old_of_refused P t i kt g hc with h | h
+    · exact Or.inl h.symm
+    · exact Or.inr ⟨hc, rfl, h⟩
+  · rw [messageKeyGeneration_not_refused P t i kt g hc]
+    exact Or.inl rfl
+
+/-- at a leaf of a shape-invariant tree the old body has no tree error -/
+theorem old_no_tree_error (P : Prim B) (k : Nat) (t : SecretTree B) (i : Nat) (kt : KeyType)
+    (g : Nat) (h : FInv k t) (hi : IsLeafOf k i) :
+    (t.messageKeyGenerationOld P i kt g).1 ≠ .error .leafNodeNoChildren ∧
+    (t.messageKeyGenerationOld P i kt g).1 ≠ .error .invalidLeafConsumption := by
+  obtain ⟨ah, t', htake, _⟩ := takeLeafRatchet_front P k t i h hi
+  rw [messageKeyGenerationOld_eq, htake]
+  constructor <;> intro hc <;>
+    rcases get_err_kind P _ g _ hc with h | h | h <;> cases h
+
+theorem upd_sel (kt : KeyType) (ah : Ratchet B × Ratchet B) : upd kt ah (sel kt ah) = ah := by
+  cases kt <;> rfl
+
+/-- a failing request at a started leaf (ratchets stored): the old path is taken, the ratchets are
+taken out and the IDENTICAL node is stored back -/
+theorem messageKeyGeneration_started_error (P : Prim B) (t : SecretTree B) (i : Nat) (kt : KeyType)
+    (g : Nat) (a h : Ratchet B) (e : Err) (hn : mapGet t.known i = some (.ratchet a h))
+    (he : (t.messageKeyGeneration P i kt g).1 = .error e) :
+    t.messageKeyGeneration P i kt g = (.error e,
+      { known := mapInsert (mapRemove t.known i).2 i (.ratchet a h), leafCount := t.leafCount }) := by
+  have hnr : ¬ Refused t i g := by
+    intro hc
+    have := (hasRatchet_eq_true_iff t i).2 ⟨a, h, hn⟩
+    rw [hc.2] at this; cases this
+  have hv : (mapRemove t.known i).1 = some (.ratchet a h) := hn
+  rw [messageKeyGeneration_not_refused P t i kt g hnr] at he ⊢
+  rw [messageKeyGenerationOld_eq, takeLeafRatchet_eq, hv] at he ⊢
+  simp only [toRatchets_ratchet] at he ⊢
+  rw [get_error_unchanged P _ g e he, upd_sel, he]
+
+/-- a fresh ratchet serves every generation up to 1024 -/
+theorem get_fresh_window (P : Prim B) (s : B) (kt : KeyType) (g : Nat) (hg : g ≤ 1024) :
+    ∃ k, ((Ratchet.new P s kt).get P g).1 = .ok k :=
+  (get_ok_iff P (Ratchet.new P s kt) g (by show 0 + 1024 < 2 ^ 32; omega)).2
+    (Or.inl ⟨Nat.zero_le _, by show g ≤ 0 + 1024; omega⟩)
+
+/-- A request rejected by the RATCHET (any error other than the two tree errors of
+`take_leaf_ratchet`) leaves the tree unchanged as a map: same leaf count, every lookup gives the
+same node.  (Refused early: the tree itself is returned; started leaf: the identical node is stored
+back; a not yet started leaf never gets here — its fresh ratchets serve every `g ≤ 1024`.) -/
+theorem messageKeyGeneration_error_lookup (P : Prim B) (t : SecretTree B) (i : Nat) (kt : KeyType)
+    (g : Nat) (e : Err) (he : (t.messageKeyGeneration P i kt g).1 = .error e)
+    (h1 : e ≠ .leafNodeNoChildren) (h2 : e ≠ .invalidLeafConsumption) :
+    (t.messageKeyGeneration P i kt g).2.leafCount = t.leafCount ∧
+    ∀ x, mapGet (t.messageKeyGeneration P i kt g).2.known x = mapGet t.known x := by
+  by_cases hc : Refused t i g
+  · rw [messageKeyGeneration_refused P t i kt g hc]; exact ⟨rfl, fun _ => rfl⟩
+  · by_cases hr : t.hasRatchet i = true
+    · obtain ⟨a, h, hn⟩ := (hasRatchet_eq_true_iff t i).1 hr
+      rw [messageKeyGeneration_started_error P t i kt g a h e hn he]
+      exact ⟨rfl, mapGet_reinsert _ _ _ hn⟩
+    · exfalso
+      have hr' : t.hasRatchet i = false := by
+        cases hh : t.hasRatchet i with
+        | true => exact absurd hh hr
+        | false => rfl
+      have hg : g ≤ 1024 := by
+        have : ¬ 1024 < g := fun h => hc ⟨h, hr'⟩
+        omega
+      rw [messageKeyGeneration_not_refused P t i kt g hc, messageKeyGenerationOld_eq] at he
+      cases hk : t.takeLeafRatchet P i with
+      | mk res t' =>
+        rw [hk] at he
+        cases res with
+        | error e' =>
+          simp only at he
+          cases he
+          rcases takeLeafRatchet_err P t t' i _ hk with h | h
+          · exact h1 h
+          · exact h2 h
+        | ok ah =>
+          obtain ⟨s, hs⟩ := takeLeafRatchet_fresh P t t' i ah ((hasRatchet_eq_false_iff t i).1 hr') hk
+          subst hs
+          simp only [sel_new] at he
+          obtain ⟨key, hkey⟩ := get_fresh_window P s kt g hg
+          rw [hkey] at he
+          cases he
+
+end Repair
 
 /-! ### §7 injectivity of key derivation under the symbolic (collision-free) assumptions -/
 
